@@ -1,7 +1,7 @@
 (** C05, tie by translation for the varint scalar codecs.  [PlencGen.GenScalar]
-    is generated from /repo/plenccodec/bool.go and int.go (BoolCodec,
-    IntCodec[T], UintCodec[T] - also used as FlatIntCodec: size, append, Size,
-    Append, Read, Omit) by tools/gotrans on every run of this check, on top of
+    is generated from /repo/plenccodec/bool.go, int.go and string.go (BoolCodec,
+    IntCodec[T], UintCodec[T] - also used as FlatIntCodec -, StringCodec,
+    BytesCodec: size, append, Size, Append, Read, Omit) by tools/gotrans on every run of this check, on top of
     the translated plenccore ([PlencGen.GenCore]); the value behind each
     unsafe.Pointer travels as a parameter and what Read stores through it is
     handed back; the integer type parameter T becomes the width w.
@@ -79,6 +79,29 @@ Theorem C05gen_Flat_Read : forall w data prior wt fuel, wbits w ->
   end.
 Proof. exact gen_Flat_Read. Qed.
 Print Assumptions C05gen_Flat_Read.
+
+(** strings and byte slices (string.go): a length prefix only under a tag *)
+Theorem C05gen_String_Append : forall s data tag fuel, (10 <= fuel)%nat -> (Z.of_nat (length s) < 4611686018427387904)%Z ->
+  StringCodec_Append fuel data s tag = Ok (data ++ enc CString (VStr s) tag)
+  /\ BytesCodec_Append fuel data s tag = Ok (data ++ enc CBytes (VStr s) tag).
+Proof. exact gen_String_Append. Qed.
+Print Assumptions C05gen_String_Append.
+Theorem C05gen_String_Size : forall s tag, (Z.of_nat (length s) + Z.of_nat (length tag) < 4611686018427387904)%Z ->
+  StringCodec_Size s tag = Z.of_N (size CString (VStr s) tag) /\ BytesCodec_Size s tag = Z.of_N (size CBytes (VStr s) tag).
+Proof. exact gen_String_Size. Qed.
+Print Assumptions C05gen_String_Size.
+Theorem C05gen_String_Omit : forall s, StringCodec_Omit s = omit CString (VStr s) /\ BytesCodec_Omit s = omit CBytes (VStr s).
+Proof. exact gen_String_Omit. Qed.
+Print Assumptions C05gen_String_Omit.
+Theorem C05gen_String_Read : forall data prior wt fuel,
+  StringCodec_Read fuel data prior wt = match dec CString data (Z.to_N wt) (VStr prior) with Ok (VStr s, n) => Ok (s, Z.of_N n) | _ => Err end
+  /\ BytesCodec_Read fuel data prior wt = match dec CBytes data (Z.to_N wt) (VStr prior) with Ok (VStr s, n) => Ok (s, Z.of_N n) | _ => Err end.
+Proof. exact gen_String_Read. Qed.
+Print Assumptions C05gen_String_Read.
+Theorem C05code_String_size_law : forall s tag fuel, (10 <= fuel)%nat -> (Z.of_nat (length s) + Z.of_nat (length tag) < 4611686018427387904)%Z ->
+  exists b, StringCodec_Append fuel [] s tag = Ok b /\ StringCodec_Size s tag = Z.of_nat (length b).
+Proof. exact code_String_size_law. Qed.
+Print Assumptions C05code_String_size_law.
 
 (** ** C05 on the code as translated: Size is the length of what Append writes, with any tag *)
 Theorem C05code_Int_size_law : forall w z tag fuel, wbits w -> in_int w z -> (10 <= fuel)%nat ->
